@@ -226,7 +226,13 @@ class FunTr:
         Ba, Bb = [], []
         a, aty = self.expr(e.body, env, Ba)
         b, bty = self.expr(e.orelse, env, Bb)
-        if Ba or Bb or cty != 'Bool' or aty != bty:
+        if Ba or Bb or cty != 'Bool':
+            raise Untranslatable('conditional expression')
+        if c == 'true':          # decided by the declared types (e.g. `x if x is not None else d` on a non-optional x)
+            return a, aty
+        if c == 'false':
+            return b, bty
+        if aty != bty:
             raise Untranslatable('conditional expression')
         return f'(if {c} then {a} else {b})', aty
 
